@@ -223,15 +223,16 @@ type jProblem struct {
 }
 
 type jEmitter struct {
-	g        *genCtx
-	ir       *FuncIR
-	saved    map[string]jStates
-	problems []jProblem
-	keys     map[string]string // key → description of the value event that follows it
-	exits    int
-	pendKey  string
-	values   int
-	rawData  []string // non-constant data appended without a JSON writer
+	g          *genCtx
+	ir         *FuncIR
+	saved      map[string]jStates
+	problems   []jProblem
+	keys       map[string]string // key → description of the value event that follows it
+	exits      int
+	pendKey    string
+	values     int
+	rawData    []string   // non-constant data appended without a JSON writer
+	keyWriters []jProblem // value-writer calls that stand in object-key position
 }
 
 func (e *jEmitter) problem(n Node, format string, a ...any) {
@@ -355,6 +356,14 @@ func (e *jEmitter) block(blk Block, in jStates) (out jStates, dead bool) {
 						tok = 'S' // a complete string: usable as an object key
 					case "JSONWriteInt32", "JSONWriteUint32", "JSONWriteInt64", "JSONWriteUint64":
 						tok = 'N' // digits and '-' only: may stand inside a quoted key
+					}
+					if tok == 'S' {
+						for st := range cur {
+							if st.phase == jK0 || st.phase == jK {
+								e.keyWriters = append(e.keyWriters, jProblem{Pos: posStr(e.g.co.Fset, n.P()), Text: what})
+								break
+							}
+						}
 					}
 					cur = e.apply(n, cur, []byte{tok}, what)
 					e.values++
